@@ -612,7 +612,7 @@ var opTable = []struct {
 	w    int
 }{
 	{"create", 24}, {"revoke-existing", 12}, {"revoke-unknown", 6}, {"revoke-admin", 3}, {"revoke-revoked", 5},
-	{"http-auth", 12}, {"ws-auth", 10}, {"restart", 4}, {"create-as-user", 2}, {"revoke-as-user", 3}, {"revoke-commit-fails", 3}, {"create-insert-fails", 2}, {"revoke-delete-fails", 2},
+	{"http-auth", 12}, {"ws-auth", 10}, {"restart", 4}, {"create-as-user", 2}, {"revoke-as-user", 3}, {"revoke-commit-fails", 3}, {"create-insert-fails", 2}, {"revoke-delete-fails", 2}, {"create-burst", 3},
 }
 
 // lockEvery: one sequence in lockEvery additionally revokes one token while a reader holds a lock (a busy timeout each)
@@ -765,6 +765,48 @@ func (s *seq) run(rng *rand.Rand, n int) {
 			_, _ = e.st.DB.Exec(`DELETE FROM verif_tokref`)
 			s.r.Count("revokes_with_refused_commit", 1)
 			s.r.Count(fmt.Sprintf("revokes_with_refused_commit_status_%dxx", code/100), 1)
+		case "create-burst":
+			// several clients ask for a token at the same moment: every answer is a different, working token
+			s.op(kind, "create 12 tokens from 6 clients at once")
+			type ans struct {
+				code int
+				tok  string
+			}
+			out := make([][]ans, 6)
+			var wg sync.WaitGroup
+			start := make(chan struct{})
+			for g := range out {
+				g := g
+				wg.Add(1)
+				go func() {
+					defer wg.Done()
+					<-start
+					for k := 0; k < 2; k++ {
+						w := e.st.HTTP(http.MethodPost, accessPath, []byte("{}"), bearer(rig.AdminToken))
+						out[g] = append(out[g], ans{w.Code, tokenOf(w.Body.Bytes())})
+					}
+				}()
+			}
+			close(start)
+			wg.Wait()
+			s.r.Count("tokens_requested_concurrently", 12)
+			for _, as := range out {
+				for _, a := range as {
+					if a.code < 200 || a.code > 299 || a.tok == "" {
+						s.r.Count("creates_by_admin_refused", 1)
+						continue
+					}
+					if prev, dup := m.everSeen[a.tok]; dup || a.tok == rig.AdminToken {
+						s.violate("duplicate-token|issued-concurrently", fmt.Sprintf("two of the tokens handed out (one of them to concurrent clients) are equal (token #%d)", prev), map[string]any{"earlier_token_number": prev})
+						return
+					}
+					i := len(m.issued)
+					m.issued = append(m.issued, a.tok)
+					m.everSeen[a.tok] = i
+					m.valid[a.tok] = true
+					s.r.Count("tokens_created", 1)
+				}
+			}
 		case "create-insert-fails":
 			// the INSERT of the new token aborts inside SQLite: a token handed out nevertheless would never authenticate
 			s.op(kind, "create while the database refuses the INSERT")
@@ -935,7 +977,7 @@ func (s *seq) run(rng *rand.Rand, n int) {
 }
 
 func body(r *ev.Run) {
-	r.Rule("seeded operation sequences of length 20..200 over {create (admin), create with a user token, revoke existing / already revoked / never-issued (random, near-miss and SQL-wildcard values) / the admin token itself, revoke with a user token (incl. self-revocation), revoke while SQLite refuses the COMMIT of the deletion (deferred foreign-key reference), aborts the DELETE statement (trigger) or while a second connection holds a read lock or the exclusive lock, create while SQLite aborts the INSERT (trigger), authenticate over TCP, websocket connect with valid / revoked / never-issued / empty / admin token, restart}; the set model follows the API's own answers (2xx create = issued, 2xx revoke = revoked). After EVERY operation every token ever issued, the admin token and the never-issued targets are authenticated on GET /api/v1/access (status, own value, isAdmin) and a rotating sample on GET /api/v1/chain/tip/longest; websocket handshakes are sampled. evaluations = sequences; distinct = distinct operation-kind strings; non-trivial = sequences with at least one create, one accepted revocation of an existing token and one restart or websocket probe.")
+	r.Rule("seeded operation sequences of length 20..200 over {create (admin), 12 creations from 6 concurrent clients, create with a user token, revoke existing / already revoked / never-issued (random, near-miss and SQL-wildcard values) / the admin token itself, revoke with a user token (incl. self-revocation), revoke while SQLite refuses the COMMIT of the deletion (deferred foreign-key reference), aborts the DELETE statement (trigger) or while a second connection holds a read lock or the exclusive lock, create while SQLite aborts the INSERT (trigger), authenticate over TCP, websocket connect with valid / revoked / never-issued / empty / admin token, restart}; the set model follows the API's own answers (2xx create = issued, 2xx revoke = revoked). After EVERY operation every token ever issued, the admin token and the never-issued targets are authenticated on GET /api/v1/access (status, own value, isAdmin) and a rotating sample on GET /api/v1/chain/tip/longest; websocket handshakes are sampled. evaluations = sequences; distinct = distinct operation-kind strings; non-trivial = sequences with at least one create, one accepted revocation of an existing token and one restart or websocket probe.")
 	r.Assume(
 		"authentication is enabled (use_auth=true); SQLite token repository only",
 		"restart = stop listeners, close the handle, database.Init on the same file, new services/engine/websocket node (no process kill: that is C05's business)",
